@@ -16,7 +16,7 @@ RULE = ("the 14 existing Cvt*/Normalize* commands x arrays with >=2 distinct val
         "thresholds asc/desc/inside/outside the data range, defaults with both directions, category tables hitting/missing the data, "
         "curves with 1-6 control points in random order, z-score vectors, IgnoreZeros both ways; distinct by (command, dtype, rank, "
         "mask class, parameter-shape class)")
-REQUIRED_COUNTERS = ["ref_postconditions", "variant_checks", "inverse_checks", "monotone_checks", "numpy_scalar_parameter_cases"]
+REQUIRED_COUNTERS = ["ref_postconditions", "variant_checks", "inverse_checks", "monotone_checks", "numpy_scalar_parameter_cases", "written_results_read_back"]
 ASSUMPTIONS = ["NormalizeZScore default thresholds, StartVal >= EndVal, equal thresholds, duplicate raw values, constant arrays and "
                "non-increasing mean-to-mid control points are don't-care (documentation silent or inconsistent)",
                "population standard deviation (ddof=0)", "float32 inputs compared with 2e-5 relative tolerance"]
@@ -46,6 +46,22 @@ def cases(ctx):
             if len(set(s["data"])) < 2:
                 s["data"][0] = 9
             c["params"] = cmdgen.gen_params(rng, cmd, 1, [v for v in s["data"]])
+        elif cmd in ("CvtToFuzzy", "Normalize", "CvtToBinary", "CvtFromFuzzy") and rng.random() < 0.15 and not c["inputs"][0]["dtype"].startswith("float"):
+            # narrow and unsigned integer fields whose values span most of the type's range (thresholds taken from the data
+            # must not wrap around)
+            s = c["inputs"][0]
+            dt_ = rng.choice(["int8", "uint8", "uint16", "int16", "uint32"])
+            lo_, hi_ = {"int8": (-100, 100), "uint8": (0, 250), "uint16": (0, 60000), "int16": (-30000, 30000), "uint32": (0, 4000000000)}[dt_]
+            s["dtype"] = dt_
+            s["data"] = [rng.choice([lo_, hi_, (lo_ + hi_) // 2, rng.randint(lo_, hi_)]) for _ in s["data"]]
+            if len(set(s["data"])) < 2:
+                s["data"][0], s["data"][-1] = lo_, hi_
+                if s["mask"]:
+                    s["mask"][0] = s["mask"][-1] = False
+            if cmd == "CvtFromFuzzy":
+                s["dtype"], s["data"] = "int8", [rng.choice([-1, 0, 1]) for _ in s["data"]]
+            c["params"] = {k_: v_ for k_, v_ in cmdgen.gen_params(rng, cmd, 1, None).items() if k_ in ("Direction",)} if cmd == "CvtToFuzzy" else ({} if cmd == "Normalize" else cmdgen.gen_params(rng, cmd, 1, [float(v) for v in s["data"]]))
+            c["narrow"] = dt_
         elif cmd in ("NormalizeCat", "CvtToFuzzyCat") and rng.random() < 0.3:
             # category codes that are large and adjacent (land-cover / watershed codes), or float codes a hair apart: a category
             # is the cells *equal* to its raw value
@@ -134,6 +150,21 @@ def run_case(ctx, case):
         return
     if len(ctx.samples) < 5:
         ctx.sample({"cmd": cmd, "params": params, "input": arr.describe(inputs[0], 8), "result": arr.describe(res, 8)})
+    if len(inputs[0].shape) == 1 and inputs[0].size and (len(case["inputs"][0]["data"]) + len(params)) % 9 == 0 and not numpy.ma.getmaskarray(res).any():
+        # the result as the CSV writer stores it next to an integer field listed first, read back
+        import os
+        ctx.count("written_results_read_back")
+        d_ = ctx.scratch()
+        arr.standin(prog, "Idx", numpy.ma.array(numpy.arange(res.size, dtype="int64")), fuzzy=False)
+        wpath = os.path.join(d_, "w.csv")
+        w = arr.invoke(prog, "EEMSWrite", "Wr", {"OutFileName": wpath, "OutFieldNames": ["Idx", "Res"]})
+        if w.ok:
+            back = arr.invoke(arr.new_program(working_dir=d_), "EEMSRead", "B", {"InFileName": wpath, "InFieldName": "Res"})
+            if back.ok:
+                bad = ref.compare(back.value, want, scale=scale, rel=max(_tol(case), 1e-9))
+                if bad:
+                    ctx.fail("%s:%s:as-written-to-a-csv-file-after-an-integer-field" % (cmd, bad[0]), {"cell": bad[1], "got": bad[2], "want": bad[3], "params": params})
+                    return
 
     # ---- pairwise variant relation
     if cmd in PAIRS or cmd == "CvtToFuzzy":
